@@ -420,8 +420,6 @@ func (m *Message) Decode() error {
 
 		m.Attributes = append(m.Attributes, attr)
 	}
-	// Bytes after the message are not a part of it.
-	m.Raw = buf[:fullSize]
 
 	return nil
 }
